@@ -48,22 +48,22 @@ func main() {
 	if run.Tier == core.Thorough {
 		k = 3
 	}
-	// the scheduler is process-global: the schedule scenarios are sharded over worker processes; worker 0 also runs
-	// the (goroutine-parallel) totality and history parts
-	if !run.Fork(9) {
+	// Process sharding: the scheduler is process-global and the totality part runs its translations one after the other,
+	// so both are split over 16 worker processes; worker 0 also runs the history part.
+	if !run.Fork(16) {
+		items := xlate.Items(k)
+		run.Set("feature_k_bound", int64(k))
+		run.Set("rule", fmt.Sprintf("all feature sets with <= %d features (read fragment, parameters, shortest paths, updating clauses) + every corpus text (including shapes the translator rejects) x {parameter symbol renamed to each variable symbol} x parameter maps {nil, empty, keys named like variables, every referenced name bound to each of %d value types via the map and via the AST, each single name bound}; 3 translations per query for determinism; 40 shortest distinct queries x (themselves + 32 probe queries using an unbound name / a parameter named like earlier variables) in all ordered pairs vs fresh-process results, 20 repetitions each; all interleavings of 2-3 concurrent translations at kind-mapper calls", k, len(valueTypes)))
+		runTotality(run, items)
 		if i, _, _ := run.Worker(); i == 0 {
-			items := xlate.Items(k)
-			run.Set("feature_bound_k", int64(k))
-			run.Set("rule", fmt.Sprintf("all feature sets with <= %d features (read fragment, parameters, shortest paths, updating clauses) + every corpus text (including shapes the translator rejects) x {parameter symbol renamed to each variable symbol} x parameter maps {nil, empty, keys named like variables, every referenced name bound to each of %d value types via the map and via the AST, each single name bound}; 3 translations per query for determinism; 40 shortest distinct queries in all ordered pairs vs fresh-process results, 20 repetitions each; all interleavings of 2-3 concurrent translations at kind-mapper calls", k, len(valueTypes)))
-			runTotality(run, items)
 			runHistory(run, items, 40, 20)
-			run.Set("distinct_nontrivial", run.Get("totality_distinct_queries_translated_or_rejected"))
 		}
 		// one OS thread for the cooperative scheduler: hand-offs between goroutines then never cross CPUs
 		runtime.GOMAXPROCS(1)
 		runConcurrent(run)
 		run.Finish()
 	}
+	run.Set("distinct_nontrivial", run.Get("totality_distinct_queries_translated_or_rejected"))
 	run.RacePass("--tier", string(run.Tier))
 	run.Assume("hang detection is a machinery guard (a worker sitting > 60 s on one translation whose median is < 1 ms), confirmed by three isolated re-runs with a 120 s limit before it is reported; no visit counter could be added without changing /repo")
 	run.Assume("under the cooperative scheduler the only interleaving points are the shared kind mapper's methods (the translator holds no locks, channels or atomics); unsynchronised sharing is covered by the -race pass (sampling) and by the history-independence part")
